@@ -58,7 +58,9 @@ class Ledger:
         self.fd = os.open(path, os.O_WRONLY | os.O_CREAT | os.O_APPEND, 0o600)
 
     def write(self, obj):
-        os.write(self.fd, (json.dumps(obj, default=repr) + "\n").encode())
+        # pwritev (appends: the descriptor is O_APPEND) so that the syscall-level
+        # kill lanes of C11, which count write/pwrite64, never count the ledger
+        os.pwritev(self.fd, [(json.dumps(obj, default=repr) + "\n").encode()], 0)
 
     def model(self, w, step):
         boxes = {}
@@ -258,7 +260,7 @@ def child(d, hist, kill_at, ledger_path, points_out, variant):
 
 
 # -------------------------------------------------------------- recovery
-def recover(d, ledger_path, result_path, deliver):
+def recover(d, ledger_path, result_path, deliver, dry_ledger=None):
     logging.basicConfig(level=logging.CRITICAL)
     from . import rig as R
     from .history import canon_flag, canon_name, wire_name
@@ -281,6 +283,21 @@ def recover(d, ledger_path, result_path, deliver):
         elif e["ev"] == "send":
             inflight = e["op"]
     res = {"ok": True, "problems": [], "inflight": inflight, "model_step": model["step"] if model else None, "delivered": None}
+    # the complete (unkilled) run of the same deterministic history tells what
+    # the in-flight command would have acknowledged: flags of a message touched
+    # by an in-flight STORE/FETCH may be the old or the new ones, nothing else
+    after = None
+    if dry_ledger and model is not None and inflight is not None:
+        try:
+            with open(dry_ledger) as f:
+                for line in f:
+                    e = json.loads(line)
+                    if e.get("ev") == "model" and e["step"] == model["step"] + 1:
+                        after = e
+                        break
+        except Exception:
+            after = None
+    res["after_model"] = after is not None
     if deliver:
         import mailbox
 
@@ -348,13 +365,18 @@ def recover(d, ledger_path, result_path, deliver):
             state[nm] = {"vv": vv, "uidnext": nxt, "rows": rows}
         res["recovered"] = {k: (v if v is None else {"vv": v["vv"], "uidnext": v["uidnext"], "n": len(v["rows"])}) for k, v in state.items()}
         if model is not None:
-            judge(model, inflight, state, bad, res)
+            judge(model, inflight, state, bad, res, after)
         try:
             await rig.stop()
         except Exception as e:
             bad("shutdown-after-recovery-failed", repr(e))
 
-    def judge(model, inflight, state, bad, res):
+    def judge(model, inflight, state, bad, res, after=None):
+        after_flags = {}
+        if after is not None:
+            for nm, b in after["boxes"].items():
+                for uid, cid, flags in b["msgs"]:
+                    after_flags[(nm, cid)] = sorted(f for f in flags if f != "unseen")
         kind = (inflight or {}).get("kind")
         ibox = (inflight or {}).get("box")
         idst = (inflight or {}).get("dst")
@@ -392,8 +414,11 @@ def recover(d, ledger_path, result_path, deliver):
                     if same_vv:
                         bad("uid-rebound", f"{name}: {cid} had UID {uid}, now {r[0]} under the same UIDVALIDITY {b['vv']}")
                 want = sorted(f for f in flags if f != "unseen")
-                if r[2] != want and not (kind in ("store", "fetch") and ibox == name):
-                    bad("acknowledged-flags-lost", f"{name} {cid}: acknowledged {want}, now {r[2]}")
+                if r[2] != want:
+                    if kind in ("store", "fetch") and ibox == name and (after is None or r[2] == after_flags.get((name, cid))):
+                        pass  # the in-flight command's own effect (or no complete run to compare with)
+                    else:
+                        bad("acknowledged-flags-lost", f"{name} {cid}: acknowledged {want}, now {r[2]}" + (f" (in flight: {kind}, which would have given {after_flags.get((name, cid))})" if kind in ("store", "fetch") and ibox == name else ""))
         # acknowledged expunges stay expunged
         for item in model.get("expunged", []):
             nm, cid = item.split("|", 1)
@@ -438,6 +463,14 @@ if __name__ == "__main__":
         pts = sys.argv[6] if len(sys.argv) > 6 and sys.argv[6] != "-" else None
         variant = sys.argv[7] if len(sys.argv) > 7 else ""
         child(d, hist, int(k), ledger, pts, variant)
+    elif mode == "prepare":
+        from . import rig as R
+
+        d, variant = sys.argv[2], (sys.argv[3] if len(sys.argv) > 3 else "")
+        R.install_guard([os.path.dirname(os.path.realpath(d))])
+        prepare_dir(d, variant)
+        open(os.path.join(d, ".prepared"), "w").close()
+        os._exit(0)
     else:
         d, ledger, result = sys.argv[2:5]
-        recover(d, ledger, result, len(sys.argv) > 5 and sys.argv[5] == "deliver")
+        recover(d, ledger, result, len(sys.argv) > 5 and sys.argv[5] == "deliver", sys.argv[6] if len(sys.argv) > 6 and sys.argv[6] != "-" else None)
